@@ -93,6 +93,9 @@ def expected_of(call, negotiated):
     if m == "close":
         code = call["code"]
         reason = call["reason"]
+        if reason[0] == "wrong":
+            # a reason that is neither text nor bytes cannot be sent (whatever the code, also None)
+            return ("reject", (TypeError, ValueError, AttributeError))
         rb = bytes.fromhex(reason[1]) if reason[0] == "b" else reason[1].encode("utf-8")
         if code is None:
             return ("frame", wire.CLOSE, b"", 0)
@@ -141,7 +144,10 @@ def perform(ws, call):
         return kwargs, keep
     if m == "close":
         reason = call["reason"]
-        r = bytes.fromhex(reason[1]) if reason[0] == "b" else reason[1]
+        if reason[0] == "wrong":
+            r = WRONG_REASONS[reason[1]]()
+        else:
+            r = bytes.fromhex(reason[1]) if reason[0] == "b" else reason[1]
         ws.close(call["code"], r)
         return r, copy.deepcopy(r)
     raise ValueError(m)
@@ -153,6 +159,9 @@ def same(a, b):
     return a == b and type(a) is type(b)
 
 
+# reasons for close() that are neither text nor bytes (what bytes() / str() would make of some of them is beside the point)
+WRONG_REASONS = {"int": lambda: 5, "zero": lambda: 0, "bool": lambda: True, "float": lambda: 1.5, "none": lambda: None,
+                 "list": lambda: [65, 66], "tuple": lambda: (1, 2), "dict": lambda: {1: 2}, "set": lambda: {7}}
 SEND_FAULTS = ["eintr", "partial_eintr", "eagain", "partial_eagain", "timeout", "oserror"]
 
 
@@ -223,6 +232,8 @@ class C03(Prop):
                           st.one_of(st.none(), st.sampled_from([1000, 1001, 1005, 4999, 0, 65535]), st.integers(0, 65535)),
                           reason_ok)),
             (1, st.builds(lambda c, r: {"m": "close", "code": c, "reason": r}, st.integers(0, 65535), reason_big)),
+            (1, st.builds(lambda c, r: {"m": "close", "code": c, "reason": ["wrong", r]},
+                          st.sampled_from([1000, 1001, None, 3000]), st.sampled_from(sorted(WRONG_REASONS)))),
         ])
         key = st.one_of(st.sampled_from(FIXED_KEYS), st.binary(min_size=4, max_size=4).map(lambda b: b.hex()))
         return st.fixed_dictionaries({
@@ -321,6 +332,16 @@ class C03(Prop):
                                      {"m": "send_binary", "arg": ["echo", 70000, cb, 20000]}],
                            "keys": FIXED_KEYS[:1] * 6, "deflate": cfg}
         from harness.runner import with_debug_log
+        def wrong_close_arguments():
+            for kind in sorted(WRONG_REASONS):
+                for code in (1000, None, 4999):
+                    for deflate in (False, True):
+                        yield {"calls": [{"m": "send_text", "arg": ["str", "before"]},
+                                         {"m": "close", "code": code, "reason": ["wrong", kind]},
+                                         {"m": "send_text", "arg": ["str", "still open"]},
+                                         {"m": "close", "code": 1000, "reason": ["s", "bye"]}],
+                               "keys": FIXED_KEYS[:1] * 6, "deflate": deflate}
+
         def failing_writes():
             for how in SEND_FAULTS:
                 for cfg in (False, True):
@@ -334,7 +355,8 @@ class C03(Prop):
                             yield {"calls": [{"m": "send_text", "arg": ["str", "before"]}, last], "keys": FIXED_KEYS[:1] * 6,
                                    "deflate": cfg, "send_fault": how}
         return [Enumeration("length_sweep_x_4_keys", sweep, exhaustive=True), after_every_prelude(battery),
-                Enumeration("the_socket_write_of_a_call_fails", failing_writes, exhaustive=True), with_debug_log(battery),
+                Enumeration("the_socket_write_of_a_call_fails", failing_writes, exhaustive=True),
+                Enumeration("close_with_a_reason_of_the_wrong_type", wrong_close_arguments, exhaustive=True), with_debug_log(battery),
                 Enumeration("deflate_message_orders", deflate_orders, exhaustive=True),
                 Enumeration("one_complete_frame_per_call_while_another_thread_writes", scheduled, exhaustive=True),
                 Enumeration("special_code_points_round_trip", special_texts, exhaustive=True),
